@@ -61,10 +61,35 @@ def _second_run_checks(pr, be, jobs1, n_cmds_before):
 
 
 # ---------------------------------------------------------------- Q9a a scheduler command fails
+NCMD9A = {}
+
+
+def setup_q9a(shard):
+    """Bound of the fault index = number of scheduler commands of an uninterrupted (second) run."""
+    be, shape = shard["be"], shard["shape"]
+    pr = Project(shape, be, hashing=True)
+    pr.add_sources(5)
+    w = pr.w
+    w.install()
+    try:
+        if shard.get("prior"):
+            w.run()
+            for n_, j in enumerate(abst.jobs_by_cmd(w)):
+                abst.set_state(w, j["id"], "failed" if n_ == 0 else "cancelled")
+            if w.sim is not None:
+                w.sim.ncmd = 0
+            else:
+                w.pool.nreq = 0
+        w.run()
+        NCMD9A["n"] = w.sim.ncmd if w.sim is not None else w.pool.nreq
+    finally:
+        w.uninstall()
+
+
 def _q9a(k, kind):
     sh = q.SHARD
     be, shape = sh["be"], sh["shape"]
-    if not (1 <= k and k <= sh["maxk"] and q.in_range(kind, 3)):
+    if not (1 <= k and k <= NCMD9A["n"] and q.in_range(kind, 3)):
         return q.SKIP
     if be == "local" and kind != 0:
         return q.SKIP
@@ -107,7 +132,7 @@ def _q9a(k, kind):
             failed = type(exc).__name__
         ncmd = w.sim.ncmd if w.sim is not None else w.pool.nreq
         if ncmd < kk:
-            return q.SKIP          # the run issues fewer than k commands: no fault happened
+            return "fault index %d within the %d commands of an uninterrupted run, but only %d were issued" % (kk, NCMD9A["n"], ncmd)
         if w.sim is not None:
             w.sim.fault_at = None
         else:
@@ -243,12 +268,12 @@ def w9b(k: int, hashing: bool) -> str:
 
 
 QUERIES = [
-    {"name": "Q9a", "fn": q9a,
-     "shards": {"quick": [{"be": "slurm", "shape": "chain2", "maxk": 5}, {"be": "slurm", "shape": "fork3", "maxk": 6}, {"be": "lsf", "shape": "chain2", "maxk": 3}, {"be": "local", "shape": "chain2", "maxk": 2},
-                          {"be": "slurm", "shape": "chain3", "maxk": 6, "prior": True}, {"be": "sge", "shape": "chain2", "maxk": 4, "prior": True}],
-                "thorough": [{"be": b, "shape": s, "maxk": 7, "prior": p} for b in ("slurm", "sge", "lsf", "local") for s in ("chain2", "fork3", "chain3") for p in (False, True)]},
+    {"name": "Q9a", "fn": q9a, "setup": setup_q9a,
+     "shards": {"quick": [{"be": "slurm", "shape": "chain2"}, {"be": "slurm", "shape": "fork3"}, {"be": "lsf", "shape": "chain2"}, {"be": "local", "shape": "chain2"},
+                          {"be": "slurm", "shape": "chain3", "prior": True}, {"be": "sge", "shape": "chain2", "prior": True}],
+                "thorough": [{"be": b, "shape": s, "prior": p} for b in ("slurm", "sge", "lsf", "local") for s in ("chain2", "fork3", "chain3") for p in (False, True)]},
      "timeout": {"quick": 900, "thorough": 1800},
-     "bound": "(optionally after an earlier complete run whose jobs then failed / were cancelled) fault at the k-th scheduler command of the first run (k symbolic, up to the number of commands the run issues: state queries and submissions), 3 fault kinds; then a fault-free run; chain of 2, fork of 3 (quick); + chain of 3, all backends (thorough); spec hashing on"},
+     "bound": "(optionally after an earlier complete run whose jobs then failed / were cancelled) fault at the k-th scheduler command of the run (k symbolic from 1 to the number of commands an uninterrupted run issues, measured at start-up: state queries and submissions), 3 fault kinds; then a fault-free run; chain of 2, fork of 3 (quick); + chain of 3, all backends (thorough); spec hashing on"},
     {"name": "W9b", "fn": w9b, "setup": setup_q9b, "shards": [], "timeout": 60, "bound": "witness of the known finding C09-hard-kill-loses-ids (concrete)"},
     {"name": "Q9b", "fn": q9b, "setup": setup_q9b,
      "shards": {"quick": [{"be": "slurm", "shape": "chain2"}, {"be": "slurm", "shape": "chain2", "prior": True}, {"be": "sge", "shape": "chain2"}, {"be": "lsf", "shape": "chain2", "prior": True}],
